@@ -406,14 +406,14 @@ def run(ctx) -> Report:
     rep = Report(rule=RULE)
     rng = ctx.rng
     queue = []
-    for _ in range(ctx.scale(120, 1500)):
+    for _ in range(ctx.scale(300, 3000)):
         sc = gen_scenario(rng, rng.choice([3, 6, 10]))
         check_scenario(sc, rep, queue)
         if len(rep.samples) < 3:
             rep.sample({'cfg': sc['cfg'], 'ops': [[o[0], o[1]] + ([o[2]] if o[0] == 'list_files' else []) for o in sc['ops'][:4]], 'stamps': sc['stamps'][:2]})
     for _ in range(ctx.scale(2, 10)):
         check_scenario(gen_dot_probe(rng), rep, None)
-    run_model(queue[:ctx.scale(400, 3000)], rep)
+    run_model(queue[:ctx.scale(800, 6000)], rep)
     return rep
 
 
